@@ -59,10 +59,10 @@ CHECKS = {
         design_ref="5.C04"),
     "C13": dict(
         category="proof",
-        text=("Representation invariant (no two mapped virtual qubits share a physical qubit, in-use set == mapped set, registration tables and the shared-"
-              "memory manager agree) proved inductive: qalloc/qfree and keep-response delivery from an arbitrary symbolic state (unit modules of symbolic size), "
-              "stop_application + re-registration and init_new_application on unit modules of size 0..4 with symbolic contents, subroutine ids never reused while "
-              "live. Classical isolation is C04's frame clause."),
+        text=("Representation invariant (injective virtual->physical map, in-use set == image) preserved by qalloc, qfree, keep-response delivery (success / deferral / fault), "
+              "stop_application and re-registration from every state satisfying it; frame conditions between applications; fresh subroutine ids; stop_application interleaved with "
+              "another application's allocations at its yield points (exhaustive over small configurations). Bounded stand-in: every history of 4 (thorough: 5) qalloc / qfree / "
+              "keep-response operations on the real executor, natively."),
         technique="contract-based deductive verification: inductive representation invariant per public operation on symbolic executor states, z3 (arrays, LIA, quantifiers)",
         design_ref="5.C13"),
     "C12": dict(
@@ -129,22 +129,20 @@ CHECKS = {
     "C03": dict(
         category="proof",
         text=("Translation validation per program schema, for all literal values: a structured source program is rendered to text (literals as decimal holes, macros, argument "
-              "brackets) and built as IR, assembled by the real parse_text_subroutine / assemble_subroutine, executed on the real executor and compared with a direct "
-              "source-level interpretation (specs/asm_source.py): registers named by the source, arrays, host-visible returns, allocated qubits; structural clauses: "
-              "source instructions kept in order, only `set <unnamed R register> <literal>` inserted, every branch lands on the (expansion of the) instruction after its label. "
-              "Eleven schemas + macro obligations (labels at index 0 / consecutive / past the end / around inserted sets, literals in every value position incl. array "
-              "indices and slice bounds, 15 and 16+ named registers, prefix-related macro keys). The quantifier over program SHAPES is covered by the schema list, not by an "
-              "unbounded proof. Two defects found and fixed (scratch register vs. index register; prefix macro keys)."),
+              "brackets) and built as IR, assembled by the real parse_text_subroutine / assemble_subroutine, executed on the real executor (with a step budget) and compared with a "
+              "direct source-level interpretation (specs/asm_source.py): registers named by the source, arrays, host-visible returns, allocated qubits; structural clauses: source "
+              "instructions kept in order, only `set <unnamed R register> <literal>` inserted, every branch lands on the (expansion of the) instruction after its label. Twelve "
+              "schemas + 16 register-placement families (R_i and any other R_j named, up to three literals in one instruction) + macro obligations + IR with a shared operand list. "
+              "The quantifier over program SHAPES is covered by these lists, not by an unbounded proof. Two defects found and fixed."),
         technique="contract-based deductive verification (translation validation): source-level meaning function vs. real assembler output on the real executor, symbolic literal values through the real text parser (segment strings), z3 LIA",
         design_ref="5.C03"),
     "C08": dict(
         category="proof",
-        text=("Translation validation per program schema, for all data values of the schema: the vanilla program and its real NV transpilation are executed on the real "
-              "executor with symbolic branch data / outcomes; equal classical memory, same measurements, and exact (cyclotomic, up to global phase) equality of the "
-              "operator applied between measurements; structural clauses (no vanilla gate left, non-gate instructions keep order/identity, controlled rotations are "
-              "electron-controlled). Eleven schemas: loops, conditionals (all expanding gates as first body gate), end label, backward jumps, set- and load-written "
-              "qubit registers, 1..3 carbons, both debug settings. The quantifier over program SHAPES is covered by the schema list, not by an unbounded proof. "
-              "Open known finding: two-qubit gate on a load-written qubit register."),
+        text=("Translation validation, for all data values: the vanilla program and its real NV transpilation are executed on the real executor (step budget; symbolic branch data / "
+              "outcomes); equal classical memory incl. the Q registers the source writes, same measurements, exact (cyclotomic, up to global phase) equality of the operator applied "
+              "between measurements, rotations with symbolic numerator; structural clauses. Programs: 12 hand-written schemas, 3 known-finding schemas, and EVERY program of four "
+              "SDK-like templates (a IF{b} c, a LOOP2{b} c, a IF{b} at the end, IF{a} ELSE{b} c) over an 8-operation alphabet (quick) / 12 operations and a fifth template (thorough). "
+              "Shapes outside the templates are not covered. Open known finding: two-qubit gate on a load-written qubit register."),
         technique="contract-based deductive verification (translation validation): vanilla vs. real NV-transpiled program on the real executor with symbolic data, z3 LIA + exact cyclotomic operator identities",
         design_ref="5.C08"),
     "C17": dict(
